@@ -430,6 +430,37 @@ def oracle_c14(cid, impl, m):
     return None
 
 
+def _conc_part(tag, what, pred):
+    def orc(cid, impl, m):
+        if "same" not in impl:
+            return None
+        d = impl.get("x_diff", "")
+        if impl["same"] != "1" and pred(d):
+            return (tag, what + ": " + d[:300])
+        return True
+    return orc
+
+
+# the conc stream judged for other properties: only the part of a disagreement that is theirs
+oracle_c08_conc = _conc_part("c08-depth-not-own", "a check request answered differently when served next to other requests "
+                             "(the same relationship under other request depths)", lambda d: d.startswith("check "))
+oracle_c11_conc = _conc_part("c11-schema-error-tenant", "a check on a declared permission of an accepted document answers differently "
+                             "from the identical permission of another tenant's document", lambda d: d.startswith("tenant-twin"))
+oracle_c16_conc = _conc_part("c16-name-not-found", "what a tenant wrote under a name is not found under that name (checks / listings differ "
+                             "from the twin tenant's)", lambda d: d.startswith("network-twin"))
+
+
+def oracle_c09_names(cid, impl, m):
+    """Expand through REST and gRPC returns the written strings (names with separators, +, %XX): the expand part of the
+    end-to-end name check of C16."""
+    if "wr" not in impl or impl["wr"] != "ok" or "wexp" not in m:
+        return None
+    for k in ("exp", "expg"):
+        if impl.get(k) != m.get("wexp"):
+            return ("c09-expand-names", f"{k}: the expansion does not return the written strings")
+    return True
+
+
 def oracle_c19(cid, impl, m):
     """Every sampled set of visible namespaces is one the model reaches after some
     prefix of the history (never partial, never the invalid version), and the final
@@ -856,8 +887,9 @@ PROPS = {
                      "Keto.C09_ids_eq_reach_partial", "Keto.C09_leaves_eq_check", "Keto.C09_mem_iff_reach",
                      "Keto.C09_legacy_plain", "Keto.C09_reachWithin_spec", "Keto.C09_reachAll_spec",
                      "Keto.C09_leaves_column_partial", "Keto.C09_order_counterexample"],
-        "streams": [{"name": "expand", "n": {"quick": 400, "thorough": 2000}, "oracle": oracle_c09, "thorough_seeds": 3}],
-        "rule": EXPAND_RULE,
+        "streams": [{"name": "expand", "n": {"quick": 400, "thorough": 2000}, "oracle": oracle_c09, "thorough_seeds": 3},
+                    {"name": "mapper", "n": {"quick": 150, "thorough": 800}, "oracle": oracle_c09_names, "thorough_seeds": 2}],
+        "rule": EXPAND_RULE + "; stream mapper (see C16): expand through the REST and gRPC routes over names with separators, + and %XX",
         "partial": "completeness within the effective depth is violated (known finding F-expand-order); proved instead: completeness whenever the run made no depth cut (cuts = 0)",
         "assumptions": ["limit.max_read_depth >= 1 (required by the configuration schema) for C09_depth"],
     },
@@ -974,7 +1006,8 @@ PROPS = {
                      "Keto.C16_tree", "Keto.C16_seedOrder_perm"],
         "streams": [{"name": "mapper", "n": {"quick": 300, "thorough": 1500}, "oracle": oracle_c16, "thorough_seeds": 3},
                     {"name": "store-faults", "n": {"quick": 150, "thorough": 800}, "oracle": oracle_c16_store, "thorough_seeds": 2},
-                    {"name": "expand", "n": {"quick": 150, "thorough": 1000}, "oracle": oracle_c16_tree, "thorough_seeds": 2}],
+                    {"name": "expand", "n": {"quick": 150, "thorough": 1000}, "oracle": oracle_c16_tree, "thorough_seeds": 2},
+                    {"name": "conc", "n": {"quick": 15, "thorough": 120}, "oracle": oracle_c16_conc, "thorough_seeds": 2}],
         "rule": ("batches of 1..250 API tuples (sizes 1/2/3, 49-51, 99-101, 149-151, 199-201, 249/250 emphasised, 40% uniform) in four "
                  "modes: all names fresh and distinct (up to 500 distinct ids = 5 lookup pages), a pool of 1-8 adversarial names "
                  "(heavy repeats, same name as object and subject), mixed, names already in the table plus new ones; names from an "
@@ -1015,7 +1048,8 @@ PROPS = {
         "lean_module": "Keto.Props.C08",
         "theorems": ["Keto.H.C08_agree", "Keto.H.C08_engine_results_ok", "Keto.H.C08_mirror_status",
                      "Keto.H.C08_unknown_namespace_never_allowed", "Keto.H.C08_batch_pointwise", "Keto.H.C08_batch_decisions"],
-        "streams": [{"name": "hcheck", "n": {"quick": 300, "thorough": 3000}, "oracle": oracle_c08, "thorough_seeds": 3}],
+        "streams": [{"name": "hcheck", "n": {"quick": 300, "thorough": 3000}, "oracle": oracle_c08, "thorough_seeds": 3},
+                    {"name": "conc", "n": {"quick": 15, "thorough": 120}, "oracle": oracle_c08_conc, "thorough_seeds": 2}],
         "rule": "OPL configuration with relations, a traverse permission and a permission with !; random stored states (via the real mapper); entries with subject id / subject set / no subject, known and unknown namespaces, undeclared relations, names with separators and empty names, max-depth parameters; every entry through REST GET and POST (mirror and always-200), gRPC Check, and batches of 1-10 entries (10 = the configured maximum) through REST and gRPC batch check; request depths include values beyond 32 bits in the query string; the engine's own result for the mapped tuple is handed to the model; non-trivial = at least one allowed entry",
         "partial": "",
         "assumptions": ["the handler model is parametric in the engine's result; its link to the engine model is C08_engine_results_ok"],
@@ -1053,7 +1087,8 @@ PROPS = {
                      "Keto.C11_parse_accepts_iff", "Keto.C11_parse_rejects", "Keto.C11_src_permission", "Keto.C11_src_type_union",
                      "Keto.C11_src_relation_decl", "Keto.C11_checks_cover", "Keto.C11_parse_typeOk", "Keto.C11_accepted_wellFormed",
                      "Keto.C11_forward_typed", "Keto.C11_forward_parse", "Keto.C11_plainTraversals_needed"],
-        "streams": [{"name": "opl", "n": {"quick": 3000, "thorough": 20000}, "oracle": oracle_c11_converse, "thorough_seeds": 3, "env": {"VERIF_OPL_WATCHDOG_MS": "20000"}}, {"name": "engine-c11", "n": {"quick": 200, "thorough": 1200}, "oracle": oracle_c11, "thorough_seeds": 2}],
+        "streams": [{"name": "opl", "n": {"quick": 3000, "thorough": 20000}, "oracle": oracle_c11_converse, "thorough_seeds": 3, "env": {"VERIF_OPL_WATCHDOG_MS": "20000"}}, {"name": "engine-c11", "n": {"quick": 200, "thorough": 1200}, "oracle": oracle_c11, "thorough_seeds": 2},
+                    {"name": "conc", "n": {"quick": 15, "thorough": 120}, "oracle": oracle_c11_conc, "thorough_seeds": 2}],
         "rule": ENGINE_RULE + "; stores conform to the declared types; judged = configuration accepted by the real OPL type checker, conforming store, query on a declared relation",
         "partial": "forward direction: for every byte string the parser model accepts, TypeOk holds; TypeOk + PlainTraversals (traversed relations have only plain-namespace types) + conforming store give WellFormed, hence no schema error for any check (C11_forward_parse); without PlainTraversals the statement is false (C11_plainTraversals_needed = known finding F-ttu-type); converse: every failing deferred check yields an error at the offending token, acceptance iff all checks hold (C11_tc_accepts_iff)",
         "assumptions": [],
